@@ -233,7 +233,23 @@ class Bounds:
                 else: out = out + Lin.atom(atom).scale(k)
             return out
         le, ne = F.at_block(call.block)
-        imp_le = [tr(f) for f in list(le) + list(assume)]; imp_ne = [tr(f) for f in ne]
+        # consequences of the caller's facts that need the caller's instructions to be seen (the callee only gets opaque atoms):
+        #   N + k <= udiv(X, c)  =>  c*N + c*k <= X          N + k <= udiv(X, y)  =>  N*y + k*y <= X   (y a value, N one atom)
+        extra = list(P.derived(list(le)))
+        from .core import prod_atom
+        for f in le:
+            for a, co in f.t.items():
+                if co != -1: continue
+                ai = P.atom_inst(a)
+                if ai is None or ai.op != "udiv" or ai.ops[1]["k"] == "int": continue
+                rest = f + Lin.atom(a); y = fi.lin(ai.ops[1]); X = fi.lin(ai.ops[0])
+                if len(y.t) != 1 or y.c != 0 or len(rest.t) != 1: continue
+                (ya, yk), = y.t.items(); (na, nk), = rest.t.items()
+                if yk != 1 or nk != 1: continue
+                pa = prod_atom(Lin.atom(na), Lin.atom(ya))
+                if pa is None: continue
+                extra.append(Lin.atom(pa) + Lin.atom(ya).scale(rest.c) - X)
+        imp_le = [tr(f) for f in list(le) + extra + list(assume)]; imp_ne = [tr(f) for f in ne]
         bound = tr(extent - off)
         params = [j for j in range(call["nargs"]) if call.ops[j]["t"].endswith("*") and fi.ptr(call.ops[j])[0] == root]
         for j in params:
